@@ -475,6 +475,18 @@ struct C02 {
                         return;
                     }
             }
+        // (d2) unused bits of the operand word (documented per row as "unusedN@P"): same behaviour whatever they hold
+        if (di.row >= 0 && di.unused2 && need_rec)
+            for (int b = 0; b < 16; ++b)
+                if (di.unused2 >> b & 1)
+                    for (u16 e : {(u16)0x0000, (u16)0x0005, (u16)0x000F, (u16)0x0003}) {
+                        ++res.transitions, ++res.traces_validated;
+                        if (c.ExecDigest(o, e) != c.ExecDigest(o, (u16)(e | (1u << b)))) {
+                            Fail(Fmt("unused-bit:second-word:behaviour:%s", di.name), Fmt("bit %d of the operand word of opcode %04X is documented as unused, but %04X %04X and %04X %04X behave differently", b, o,
+                                                                                       o, e, o, e | (1u << b)), rp);
+                            return;
+                        }
+                    }
         digests.insert(Mix(o) ^ (u64)di.row);
     }
 
@@ -669,7 +681,7 @@ int main(int argc, char** argv) {
                    "row and on the need for a second word; one Run(1) at 4 start addresses: first program access at pc, second access is the operand word at pc+1 "
                    "exactly for two-word rows, pc advances by the length, and the cycle after a two-word instruction behaves like the instruction behind the operand "
                    "word; for every bit the table TEXT marks Unused<>: the flipped opcode decodes to the same row with the same operands, prints the same tokens and "
-                   "executes identically; every opcode the decoder knows and the disassembler renders is known to the assembler; 64 loop programs (block repeat x "
+                   "executes identically (also for the operand-word bits a row documents as unused); every opcode the decoder knows and the disassembler renders is known to the assembler; 64 loop programs (block repeat x "
                    "single repeat x two-word instructions, counts 0..3) stepped cycle by cycle: the program counter never rests on an operand word";
         res.bound = "all 65536 opcodes x start addresses {0, 0x0FFF, 0x1FFFE, 0x3FFF0}; all unused bits of all rows; 4 loop program shapes x counts {0..3}^2";
         res.assumptions = {"rep over a two-word instruction is outside the statement",
